@@ -138,12 +138,17 @@ CHECKS = {
        "same_schedule_code_rejects_duplicate; tie `c12 ddl …`: catalog generation and cache hit/miss of every BEGIN / autocommit statement / autocommit query and the mandatory catalog "
        "conflicts at COMMIT on schedules with CREATE TABLE (PK, AUTO_INCREMENT, NOT NULL, CHECK, VARCHAR[n]) / CREATE [UNIQUE] INDEX on empty and populated tables / DROP INDEX / ADD|DROP|RENAME COLUMN / DROP TABLE "
        "interleaved with open transactions of 2-4 sessions; ORACLE = persisted truth: after every commit a FRESH engine on the same store loads catalog and rows, every constraint that catalog "
-       "declares is checked over the rows, both must equal the reference (acknowledged transactions applied at their commit points under the catalog persisted there: a statement that must fail there was not acknowledged).",
-  note=TB + " Modelled rather than verified: the transient index entries of an open transaction (statements writing several rows of an indexed table are kept out of the "
+       "declares is checked over the rows, both must equal the reference (acknowledged transactions applied at their commit points under the catalog persisted there: a statement that must fail there was not acknowledged). "
+       "VALUES AS WRITTEN (c12_spell.go, model Sql/Conv.lean): every value of the sequential families may be respelled — TIMESTAMP as string / varchar parameter / CAST in every accepted layout, zone and number of fractional digits incl. SUB-MICROSECOND digits, "
+       "time.Time parameters with nanoseconds, INTEGER as string / FLOAT with a fractional part, FLOAT as INTEGER / string, UUID in upper case / urn / braces / 16-byte BLOB, BOOLEAN text forms, VARCHAR from numbers, CASTs — and dedicated cases per key type make two spellings of "
+       "ONE stored value meet under a PRIMARY KEY / UNIQUE index; reference and model work on the STORED value, the engine gets the text; extra oracle: the key the statement probes (EncodeRawValueAsKey of the value as written) = the key the indexer derives from the stored row, "
+       "no scan / autocommit statement may block (stalled index). Theorems probe_key_is_indexer_key (a value at the stored precision has one key, all column types), timestamp_from_string_probe_key_is_indexer_key (the converter truncates to the microsecond BEFORE the key is encoded), "
+       "timestamp_spellings_of_one_stored_value_probe_one_key, witness untruncated_timestamp_probe_key_differs; tie `c12 conv ts sec nsec`: probe key and indexer key of the engine's exported encoders on the text vs the model on the instant the text denotes.",
+  note=TB + " Modelled rather than verified: parsing of TIMESTAMP text (time.ParseInLocation: the model starts from the instant it returns) and every conversion other than to TIMESTAMP (harness oracle only); the transient index entries of an open transaction (statements writing several rows of an indexed table are kept out of the "
        "correspondence; that behaviour is finding R1), DEFAULT values, JSON, FOREIGN KEY, ALTER TABLE, implicit INTEGER->FLOAT conversion; the concurrent-session model covers statements addressed by primary key with every row / unique tuple written once per transaction "
        "(the early `return nil` of checkPreconditions and non-default snapshot options are C05's), duplicate freedom of every reachable store is NOT proved (false in general: R2) "
        "— the harness checks it; the schema history of Sql/CatalogDml.lean is an abstract function generation -> Schema (one table; what DDL does to the catalog is the harness reference's business), "
-       "the catalog-cache model is the C13 one (NewTx is one step; the read-only fill race ro_fill_not_atomic_stale is outside). Known signatures for root causes R1, R2, R3, R4, R9, R13, R18 (SET NOT NULL not persisted) (known_findings.json); R19 (DROP TABLE of a table with a CHECK failed) is repaired, its signature stays armed and the case is probed in every run.",
+       "the catalog-cache model is the C13 one (NewTx is one step; the read-only fill race ro_fill_not_atomic_stale is outside). Known signatures for root causes R1, R2, R3, R4, R9, R13, R18 (SET NOT NULL not persisted), R25 (UPSERT/UPDATE of an indexed column with an implicitly converted value: not comparable), R26 (CHECK evaluated on the value as written: 1.5 passes CHECK (b <> 1) and stores 1) (known_findings.json); R19 (DROP TABLE of a table with a CHECK failed) is repaired, its signature stays armed and the case is probed in every run.",
   technique="Lean 4 proof (invariant preservation by induction over the statement interpreter; concrete witnesses by kernel evaluation) + differential correspondence + invariant checking after every commit",
   design="7/C12"),
  "C11": dict(
